@@ -328,7 +328,7 @@ func (e *Engine) smtText(o *Obligation, wantModel bool) string {
 	if len(pinned) > 0 {
 		sofar := b.String()
 		for _, ax := range pinned {
-			b.WriteString(pinHeaps(ax, sofar) + "\n")
+			b.WriteString(pinHeaps(ax, sofar, o.Goal) + "\n")
 		}
 	}
 	b.WriteString("(assert (not " + o.Goal + "))\n(check-sat)\n")
@@ -617,9 +617,9 @@ func (x *Exec) refuteEither(st *State, cond string) (condImpossible, negImpossib
 // pinHeaps replaces an axiom (forall ((hb_X S) ... other binders) body) by its instances at the heap constants of sort S
 // that the script declares for heap X (H0_X, H_X!n, Hv_X!n). Solvers give up early on quantifiers over array-sorted
 // variables when the script also stores into such arrays; the instances are all that E-matching would have used.
-var heapConstRe = regexp.MustCompile(`\(declare-const ((?:H0|H|Hv)_[A-Za-z0-9_]+?)(![0-9]+)? `)
+var heapArgRe = regexp.MustCompile(`\(u_[A-Za-z0-9_]+((?: (?:H0|Hv|H)_[A-Za-z0-9_]+(?:![0-9]+)?)+)`)
 
-func pinHeaps(ax, script string) string {
+func pinHeaps(ax, script, goal string) string {
 	const pre = "(assert (forall ("
 	rest := ax[len(pre):]
 	type hb struct{ name string }
@@ -644,10 +644,22 @@ func pinHeaps(ax, script string) string {
 	if len(hbs) == 0 || strings.HasPrefix(rest, ")") {
 		return ax // nothing to pin, or no other bound variable would remain
 	}
+	// the heap constants that occur as heap arguments of specification functions (u_f H... args) in the script or the axiom
 	consts := map[string][]string{}
-	for _, m := range heapConstRe.FindAllStringSubmatch(script, -1) {
-		sid := m[1][strings.Index(m[1], "_")+1:]
-		consts[sid] = append(consts[sid], m[1]+m[2])
+	seen := map[string]bool{}
+	for _, m := range heapArgRe.FindAllStringSubmatch(script+"\n"+goal, -1) {
+		for _, h := range strings.Fields(m[1]) {
+			if seen[h] {
+				continue
+			}
+			seen[h] = true
+			name := h
+			if i := strings.Index(name, "!"); i > 0 {
+				name = name[:i]
+			}
+			sid := name[strings.Index(name, "_")+1:]
+			consts[sid] = append(consts[sid], h)
+		}
 	}
 	insts := []string{pre + rest}
 	for _, h := range hbs {
